@@ -58,6 +58,7 @@ func runGenEngines(c *Check, o genOpts) map[*ssa.Function]bool {
 	if o.deref {
 		runDeref(c, "UNCHECKED-LOOKUP", o.entries, res, nil)
 	}
+	c.Counts["copied_element_updates"] = lostUpdates(c, "LOST-UPDATE", in)
 	if o.order {
 		e := newOrderEngine(p)
 		runOrder(c, "MAP-ORDER", e, func(f *ssa.Function) bool { return in[f] })
@@ -425,3 +426,91 @@ func clipKey(s string) string {
 }
 
 var _ = token.NoPos
+
+// lostUpdates: a struct value copied out of a map or slice (`e, ok := m[k]`,
+// `for _, e := range xs`) is a copy: a field written on the copy and never read
+// again, nor stored back, is an update that is lost — the container keeps the
+// old value. (In the data-model diagram the per-target relationship counters
+// are kept this way.)
+func lostUpdates(c *Check, rule string, in map[*ssa.Function]bool) int {
+	p := c.P
+	var list []*ssa.Function
+	for f := range in {
+		list = append(list, f)
+	}
+	sort.Slice(list, func(i, j int) bool { return fnName(list[i]) < fnName(list[j]) })
+	n := 0
+	for _, f := range list {
+		if p.isGeneratedFile(p.fnFile(f)) || strings.HasSuffix(p.fnFile(f), "_test.go") {
+			continue
+		}
+		eachInstr(f, func(_ *ssa.BasicBlock, i ssa.Instruction) {
+			al, ok := i.(*ssa.Alloc)
+			if !ok || al.Heap || al.Referrers() == nil {
+				return
+			}
+			if _, isStruct := al.Type().(*types.Pointer).Elem().Underlying().(*types.Struct); !isStruct {
+				return
+			}
+			// initialised from an element of a container?
+			fromElem := false
+			var fieldStores []*ssa.Store
+			var reads []ssa.Instruction
+			for _, r := range *al.Referrers() {
+				switch x := r.(type) {
+				case *ssa.Store:
+					if x.Addr == ssa.Value(al) {
+						if derives(x.Val, func(v ssa.Value) bool {
+							switch v.(type) {
+							case *ssa.Lookup, *ssa.Next:
+								return true
+							case *ssa.IndexAddr:
+								return true
+							}
+							return false
+						}, nil) {
+							fromElem = true
+						}
+					} else {
+						reads = append(reads, r) // the struct value stored elsewhere: escapes as a value
+					}
+				case *ssa.UnOp:
+					reads = append(reads, r)
+				case *ssa.FieldAddr:
+					if x.Referrers() != nil {
+						for _, r2 := range *x.Referrers() {
+							if st, ok := r2.(*ssa.Store); ok && st.Addr == ssa.Value(x) {
+								fieldStores = append(fieldStores, st)
+							} else {
+								reads = append(reads, r2)
+							}
+						}
+					}
+				default:
+					reads = append(reads, r) // address taken, call argument…: assume read
+				}
+			}
+			if !fromElem || len(fieldStores) == 0 {
+				return
+			}
+			for _, st := range fieldStores {
+				n++
+				_, fld, _, _ := fieldOfAddr(st.Addr)
+				key := fmt.Sprintf("%s|update of copied element .%s is kept", fnName(f), fld)
+				used := false
+				for _, rd := range reads {
+					if rd == ssa.Instruction(st) {
+						continue
+					}
+					if canReach(st, rd, nil) {
+						used = true
+					}
+				}
+				c.Cond(used, rule, key, p.pos(st.Pos()),
+					"the modified copy is read or stored back afterwards",
+					fmt.Sprintf("field %s is written on a copy of a container element and the copy is never read or stored back: the update is lost (the container keeps the old value)", fld))
+			}
+		})
+	}
+	return n
+}
